@@ -114,5 +114,11 @@ def gen_digit_placement(ch):
 def shard(ctx):
     ctx.drive("main", gen_case, ctx.n(2500, 40000), max_bytes=1200)
     ctx.drive("long_index", gen_long_index, ctx.n(10, 60), max_bytes=64)
+    # a ladder of nesting depths, split over the shards (a handful of generated cases would all be the smallest ones)
+    ladder = [(d, a) for d in (150, 300, 450, 500, 540, 580, 620, 650, 670) for a in ("C", "S", "N")]
+    for j, (d, a) in enumerate(ladder):
+        if j % ctx.nshards == ctx.shard and (ctx.tier == "thorough" or a == "C" or d in (540, 670)):
+            smi = a + "(C" * d + "F" + ")F" * d
+            ctx.check(dict(table={"?": 8}, smiles=smi, truth=RTM.truth_from_reading(smi), source="template"))
     ctx.drive("plain", lambda ch: RTM.gen_case(ch, max_atoms=24, table_mode="fit"), ctx.n(1000, 15000), max_bytes=900)
     ctx.drive("digit_placement", gen_digit_placement, ctx.n(1500, 20000), max_bytes=500)
